@@ -178,7 +178,9 @@ where
 		let mut amount_debited = 0;
 		t.num_inputs = lock_inputs.len();
 		for id in lock_inputs {
-			let mut coin = batch.get(&id.0, &id.1).unwrap();
+			// the selected output may have been deleted since (its creating
+			// transaction was cancelled): an error, not a panic
+			let mut coin = batch.get(&id.0, &id.1)?;
 			// an input that is already reserved by another transaction (or by an
 			// earlier lock of this same slate), already spent, or reverted by a
 			// re-org since it was selected must not be reserved
